@@ -160,6 +160,14 @@ class Case:
                 self.body_pp[(o.method, o.path)] = (bool(o.body), bool(o.path_parameters))
         self.ops = self.world.wire_ops(self.body_pp)
         self.facts = self.world.facts()
+        self.gql = False
+
+    def load(self):
+        """a freshly loaded schema of this document (its own FilterSet object)"""
+        return schemathesis.openapi.from_dict(self.raw)
+
+    def replay_base(self):
+        return {"doc": self.raw, "doc_name": self.name}
 
 
 def normalize_rule_names(model_rules):
@@ -361,6 +369,403 @@ def detect_variants(chk, case_a: Case):
     return {"lazy": lazy, "statistic": stat}
 
 
+# ---- derivation histories: schemas derived from schemas, shared FilterSet objects, lazy chains -----------------------
+
+HIST_ROOTS = 2  # object 0: a freshly loaded schema; object 1: a `from_fixture` object
+
+
+def conj_key(conj):
+    """Identity of the filter one conjunction of criteria is stored as (HTTP method values upper-cased)."""
+    k = []
+    for crit in conj:
+        if crit[0] in ("is", "oneOf") and crit[1] == "method":
+            v = crit[2]
+            crit = (crit[0], crit[1], [x.upper() for x in v] if isinstance(v, list) else v.upper())
+        k.append(json.dumps(crit))
+    return tuple(k)
+
+
+def call_keys(c):
+    return [conj_key(conj) for conj in G.call_conjs(c)]
+
+
+def cli_kwargs(a, exprs=None):
+    kwargs = {}
+    for mode in ("include", "exclude"):
+        for attr in G.ATTRS:
+            kwargs[f"{mode}_{attr}"] = tuple(a.get(f"{mode}_{attr}", ()))
+            kwargs[f"{mode}_{attr}_regex"] = a.get(f"{mode}_{attr}_regex")
+        kwargs[f"{mode}_by"] = (exprs or {}).get(a.get(f"{mode}_by"))
+    kwargs["exclude_deprecated"] = a.get("exclude_deprecated", False)
+    return kwargs
+
+
+def wire_cli(a, reg):
+    w = {}
+    for k, v in a.items():
+        w[k] = reg.id(k.split("_", 1)[1][:-6], v) if k.endswith("_regex") else v
+    return w
+
+
+def oracle_refusal(parent_keys, c):
+    """Which refusal (if any) the documented rules prescribe for one include/exclude call on a parent holding
+    `parent_keys` (on either side).  Independent of the model; `exclude(func, deprecated=True)` is two exclusions."""
+    kw = c["kw"]
+    both = any(kw.get(a) is not None and kw.get(a + "_regex") is not None for a in G.ATTRS)
+    split = (not c["inc"]) and c["dep"] and kw.get("func") is not None
+    have = set(parent_keys)
+    if split:
+        first = (json.dumps(("deprecated",)),)
+        if first in have:
+            return "filterExists"
+        have = have | {first}
+    if both:
+        return "expectedAndRegex"
+    keys = call_keys(c)
+    last = keys[-1]
+    if not last:
+        return "emptyFilter"
+    if last in have:
+        return "filterExists"
+    return None
+
+
+class History:
+    """Runs one derivation history on the real objects, observing EVERY object created so far after each step."""
+
+    def __init__(self, case, preds, root=None):
+        self.case, self.preds = case, preds
+        self.root = case.load() if root is None else root
+        self.objs = [{"kind": "schema", "obj": self.root, "pool": ([], []), "keys": [], "via": "root"},
+                     {"kind": "lazy", "obj": schemathesis.pytest.from_fixture("api"), "pool": ([], []), "keys": [],
+                      "via": "root"}]
+
+    def observe_obj(self, o):
+        if o["kind"] == "schema":
+            return {"all": labels_of(o["obj"]), "stat": stat_of_fresh(o["obj"])}
+        from schemathesis.pytest.lazy import get_schema
+
+        def test(case):
+            pass
+
+        schema = get_schema(request=_Request(self.root), name="api", filter_set=o["obj"].filter_set, test_function=test)
+        return {"all": labels_of(schema), "stat": stat_of_fresh(schema)}
+
+    def step(self, st):
+        """returns the refusal class or None"""
+        from schemathesis.pytest.lazy import get_schema
+        from schemathesis.pytest.plugin import SchemaHandleMark
+
+        if st["op"] == "derive":
+            parent = self.objs[st["p"]]
+            c = st["call"]
+            kw = G.real_kwargs(c, self.preds)
+            f = kw.pop("func", None)
+            try:
+                new = parent["obj"].include(f, **kw) if c["inc"] else parent["obj"].exclude(f, **kw)
+            except IncorrectUsage as exc:
+                return _err_class(exc)
+            inc, exc = parent["pool"]
+            conjs = G.call_conjs(c)
+            pool = (inc + conjs, exc) if c["inc"] else (inc, exc + conjs)
+            self.objs.append({"kind": parent["kind"], "obj": new, "pool": pool, "keys": parent["keys"] + call_keys(c),
+                              "via": "derive"})
+        elif st["op"] == "adopt":
+            import click
+            from schemathesis.cli.commands.run import filters as cli_filters
+
+            try:
+                fs = cli_filters.FilterArguments(**cli_kwargs(st["cli"])).into()
+            except (click.UsageError, IncorrectUsage) as exc:
+                return _err_class(exc)
+            new = self.case.load()
+            new.filter_set = fs  # as cli/commands/run/executor.py does with the freshly loaded schema
+            inc, exc = cli_conjs(st["cli"])
+            self.objs.append({"kind": "schema", "obj": new, "pool": (inc, exc),
+                              "keys": [conj_key(cj) for cj in inc + exc], "via": "adopt"})
+        elif st["op"] == "share":
+            parent = self.objs[st["p"]]
+            if st.get("how") == "parametrize":
+                def test(case):
+                    pass
+
+                parent["obj"].parametrize()(test)
+                new = SchemaHandleMark.get(test)
+            else:
+                new = parent["obj"].clone()
+            self.objs.append({**parent, "obj": new, "via": "share"})
+        else:
+            lz, fx = self.objs[st["l"]], self.objs[st["f"]]
+
+            def test(case):
+                pass
+
+            new = get_schema(request=_Request(fx["obj"]), name="api", filter_set=lz["obj"].filter_set, test_function=test)
+            self.objs.append({"kind": "schema", "obj": new, "pool": (fx["pool"][0] + lz["pool"][0], fx["pool"][1] + lz["pool"][1]),
+                              "keys": fx["keys"] + lz["keys"], "via": "resolve"})
+        return None
+
+
+def stat_of_fresh(schema):
+    s = schema._measure_statistic()
+    return [s.operations.total, s.operations.selected, s.links.total, s.links.selected]
+
+
+def random_history(rng, call_gen=None, adopt=True):
+    """A typed random history over the two roots; biased towards deriving again from objects that already have
+    children and towards adding to the side that is already populated."""
+    call_gen = call_gen or random_call
+    kinds = ["schema", "lazy"]
+    children = [0, 0]
+    steps = []
+    sides = [set(), set()]
+    for _ in range(rng.choice([3, 4, 5, 6, 7])):
+        x = rng.random()
+        schemas = [i for i, k in enumerate(kinds) if k == "schema"]
+        lazies = [i for i, k in enumerate(kinds) if k == "lazy"]
+        if x < 0.12 and len(kinds) > 2:
+            p = rng.choice(schemas)
+            steps.append({"op": "share", "p": p, "how": rng.choice(["clone", "parametrize"])})
+            kinds.append("schema"); children.append(0); sides.append(set(sides[p])); children[p] += 1
+            continue
+        if 0.24 <= x < 0.30 and adopt:
+            a = {k: v for k, v in random_cli(rng).items() if not k.endswith("_by")}
+            steps.append({"op": "adopt", "cli": a})
+            kinds.append("schema"); children.append(0)
+            sides.append({m for m in ("inc", "exc") if any(k.startswith("include" if m == "inc" else "exclude") and v
+                                                          for k, v in a.items())})
+            continue
+        if 0.12 <= x < 0.24:
+            l, f = rng.choice(lazies), rng.choice(schemas)
+            steps.append({"op": "resolve", "l": l, "f": f})
+            kinds.append("schema"); children.append(0); sides.append(sides[l] | sides[f])
+            continue
+        # derive: prefer a filtered parent (w=3), one that already has children (w=+3)
+        weights = [1 + (3 if sides[i] else 0) + (3 if children[i] else 0) for i in range(len(kinds))]
+        p = rng.choices(range(len(kinds)), weights)[0]
+        inc = rng.random() < 0.5
+        if sides[p] and rng.random() < 0.6:
+            inc = rng.choice(sorted(sides[p])) == "inc"
+        c = call_gen(rng, inc)
+        if steps and rng.random() < 0.12:  # repeat an earlier call (a sibling's, or the parent's own: "already exists")
+            earlier = [s["call"] for s in steps if s["op"] == "derive"]
+            if earlier:
+                c = rng.choice(earlier)
+        steps.append({"op": "derive", "p": p, "call": c})
+        children[p] += 1
+        # the new object exists only when the call is accepted; the generator tracks the optimistic shape and
+        # `run_histories` drops steps that refer to objects that were never created
+        kinds.append(kinds[p]); children.append(0); sides.append(sides[p] | {"inc" if c["inc"] else "exc"})
+    return steps
+
+
+def wire_step(st, reg):
+    if st["op"] == "derive":
+        return {"op": "derive", "p": st["p"], "call": G.wire_call(st["call"], reg)}
+    if st["op"] == "share":
+        return {"op": "share", "p": st["p"]}
+    if st["op"] == "adopt":
+        return {"op": "adopt", "cli": wire_cli(st["cli"], reg)}
+    return {"op": "resolve", "l": st["l"], "f": st["f"]}
+
+
+def realise_history(case, steps, preds, root=None, real_indices=False):
+    """Run the steps on the real objects.  The generator assumed every derive is accepted; indices are remapped so
+    that a step referring to an object that was never created is dropped (`real_indices`: the steps are a recorded
+    history whose indices already are creation indices).  Returns (kept steps, per-step record)."""
+    h = History(case, preds, root)
+    alive = {0: 0, 1: 1}  # generator index -> real index
+    gen_next = HIST_ROOTS
+    kept, records = [], []
+    for st in steps:
+        gi = gen_next
+        gen_next += 1
+        refs = [st[k] for k in ("p", "l", "f") if k in st]
+        if real_indices:
+            alive = {i: i for i in range(len(h.objs))}
+        if any(r not in alive for r in refs):
+            continue
+        real = {**st, **{k: alive[st[k]] for k in ("p", "l", "f") if k in st}}
+        if real["op"] == "share" and h.objs[real["p"]]["kind"] != "schema":
+            continue
+        if real["op"] == "resolve" and (h.objs[real["l"]]["kind"] != "lazy" or h.objs[real["f"]]["kind"] != "schema"):
+            continue
+        before = len(h.objs)
+        parent_keys = list(h.objs[real["p"]]["keys"]) if real["op"] == "derive" else None
+        err = h.step(real)
+        if len(h.objs) > before:
+            alive[gi] = before
+        kept.append(real)
+        records.append({"err": err, "parent_keys": parent_keys,
+                        "objs": [h.observe_obj(o) for o in h.objs],
+                        "meta": [{"kind": o["kind"], "via": o["via"], "pool": o["pool"]} for o in h.objs]})
+    # at the end: the cached `statistic` property of every schema, and all generators consumed in lock-step
+    final = {"cached": [stat_of(o["obj"]) if o["kind"] == "schema" else None for o in h.objs],
+             "interleaved": interleaved_labels([o["obj"] for o in h.objs if o["kind"] == "schema"])}
+    return h, kept, records, final
+
+
+def interleaved_labels(schemas):
+    """get_all_operations of several schemas consumed round-robin (they share `_should_skip`'s default `_ctx_cache`)"""
+    gens = [iter(s.get_all_operations()) for s in schemas]
+    out = [[] for _ in schemas]
+    live = list(range(len(gens)))
+    while live:
+        for i in list(live):
+            try:
+                r = next(gens[i])
+            except StopIteration:
+                live.remove(i)
+                continue
+            out[i].append(r.ok().label if isinstance(r, Ok) else "ERR")
+    return out
+
+
+def step_kind(st):
+    if st["op"] == "derive":
+        return "include" if st["call"]["inc"] else "exclude"
+    return st["op"]
+
+
+def run_histories(chk, case: Case, histories, mechanism, reg, variants):
+    preds = case.world.preds
+    sv, lv = variants["statistic"], variants["lazy"]
+    realised = [realise_history(case, steps, preds) for steps in histories]
+    wires = [[wire_step(st, reg) for st in kept] for _, kept, _, _ in realised]
+    rx = reg.tables(case.world.strings())
+    models = []
+    for i in range(0, len(wires), 400):
+        res = chk.driver().batch([("history", {"rx": rx, "ops": case.ops, "roots": HIST_ROOTS, "variant": lv,
+                                               "gql": case.gql, "histories": wires[i:i + 400]})])[0]
+        if isinstance(res, dict) and "__err__" in res:
+            raise InfraError(f"model error {res} on document {case.name}")
+        models.extend(res)
+    total = len(case.facts)
+    for (h, kept, records, final), wire, model in zip(realised, wires, models):
+        replay = {**case.replay_base(), "history": kept}
+        key = {"doc": case.name, "history": wire}
+        multi = sum(1 for r in records if r["err"] is None) >= 2
+        chk.case(mechanism, key=key, nontrivial=multi,
+                 sample={"doc": case.name, "history": wire, "final": [o["all"] for o in records[-1]["objs"]] if records else []})
+        chk.feature(f"{mechanism}:steps={len(kept)}")
+        settled = {}  # object index -> True once it has been seen offering its own selection
+        stop = False
+        for t, (st, rec, m) in enumerate(zip(kept, records, model)):
+            kind = step_kind(st)
+            chk.feature(f"history:step:{kind}:{'refused' if rec['err'] else 'accepted'}")
+            if st["op"] == "derive" and rec["err"] is None and any(
+                    s2.get("p") == st["p"] and s2["op"] == "derive" for s2 in kept[:t]):
+                chk.feature("history:parent-derived-from-more-than-once")
+            here = {**replay, "step": t}
+            compare(chk, "history:refusal", here, m["err"], rec["err"])
+            # the refusal: Lean value semantics vs the independent reading of the rules, then the implementation
+            if st["op"] == "derive":
+                want = oracle_refusal(rec["parent_keys"], st["call"])
+                if want != m["spec_err"]:
+                    raise InfraError(f"Lean value semantics and Python oracle disagree on the refusal of step {t} of "
+                                     f"{wire} ({case.name}): {m['spec_err']} vs {want}")
+                if rec["err"] != want:
+                    chk.violation(f"C07:history:{kind}:call-judged-against-filters-the-parent-does-not-have",
+                                  f"step {t} ({kind} on object {st['p']}) was "
+                                  f"{'refused with ' + rec['err'] if rec['err'] else 'accepted'}; the parent's own "
+                                  f"filters prescribe {want or 'acceptance'}", {**here, "impl": rec["err"], "expected": want})
+                    stop = True
+            if st["op"] == "adopt" and rec["err"] != m["spec_err"]:
+                chk.violation("C07:history:adopt:options-judged-against-filters-of-another-run",
+                              f"step {t} (command-line options {st['cli']}) was "
+                              f"{'refused with ' + rec['err'] if rec['err'] else 'accepted'}; on their own the options "
+                              f"prescribe {m['spec_err'] or 'acceptance'}", {**here, "impl": rec["err"], "expected": m["spec_err"]})
+                stop = True
+            if len(m["objs"]) != len(rec["objs"]):
+                compare(chk, "history:objects", here, len(m["objs"]), len(rec["objs"]))
+                break
+            compare(chk, "history:get_all_operations", here, [o["all"] for o in m["objs"]], [o["all"] for o in rec["objs"]])
+            compare(chk, "history:_measure_statistic", here, [o[f"stat_{sv}"] for o in m["objs"]],
+                    [o["stat"] for o in rec["objs"]])
+            # ---- replay: every object created so far must offer what ITS OWN filters select --------------------------
+            for i, (obs, meta, mo, spec) in enumerate(zip(rec["objs"], rec["meta"], m["objs"], m["spec"])):
+                inc, exc = meta["pool"]
+                expected = [f["name"] for f in case.facts if G.oracle_selected(inc, exc, f)]
+                if expected != spec:
+                    raise InfraError(f"Lean value semantics and Python oracle disagree on object {i} after step {t} of "
+                                     f"{wire} ({case.name}): {spec} vs {expected}")
+                if obs["all"] != expected:
+                    if lv == "asFound" and obs["all"] == mo["all"] and meta["via"] == "resolve":
+                        sig = KF_LAZY
+                    elif settled.get(i):
+                        sig = f"C07:history:{kind}:changed-what-an-existing-{meta['kind']}-selects"
+                    else:
+                        sig = f"C07:history:{kind}:new-object-offered-differs-from-selection"
+                    chk.violation(sig, f"after step {t} ({kind}) object {i} ({meta['kind']}, created by {meta['via']}) "
+                                       f"offers {obs['all']}; its own filters select {expected}",
+                                  {**here, "object": i, "impl": obs["all"], "expected": expected})
+                    stop = sig != KF_LAZY
+                elif obs["stat"][:2] != [total, len(expected)]:
+                    explained = obs["stat"] == mo["stat_asFound"] and mo["stat_repaired"][:2] == [total, len(expected)]
+                    chk.violation(KF_STAT if explained else "C07:history:statistic-differs-from-offered",
+                                  f"after step {t} object {i} reports {obs['stat'][1]}/{obs['stat'][0]} operations but "
+                                  f"{len(expected)}/{total} are selected and offered",
+                                  {**here, "object": i, "impl": obs["stat"], "expected": [total, len(expected)]})
+                    stop = not explained
+                else:
+                    settled[i] = True
+                if stop:
+                    break
+            if stop:
+                break
+        if stop or not records or len(model) != len(records) or len(model[-1]["objs"]) != len(records[-1]["objs"]):
+            continue
+        # ---- end of the history: cached statistic, lock-step iteration ------------------------------------------------
+        last, metas = model[-1], records[-1]["meta"]
+        here = {**replay, "step": len(kept) - 1}
+        m_cached = [o[f"stat_{sv}"] if mt["kind"] == "schema" else None for o, mt in zip(last["objs"], metas)]
+        compare(chk, "history:statistic(cached)", here, m_cached, final["cached"])
+        m_inter = [o["all"] for o, mt in zip(last["objs"], metas) if mt["kind"] == "schema"]
+        compare(chk, "history:get_all_operations(lock-step)", here, m_inter, final["interleaved"])
+        specs = [sp for sp, mt in zip(last["spec"], metas) if mt["kind"] == "schema"]
+        for j, (got, want) in enumerate(zip(final["interleaved"], specs)):
+            if got != want:
+                chk.violation("C07:history:lock-step-iteration-offered-differs-from-selection",
+                              f"consuming get_all_operations of all schemas in lock-step, schema #{j} offers {got}; its "
+                              f"filters select {want}", {**here, "impl": got, "expected": want})
+        for i, (got, sp, mt, mo) in enumerate(zip(final["cached"], last["spec"], metas, last["objs"])):
+            if got is not None and got[:2] != [total, len(sp)]:
+                explained = got == mo["stat_asFound"] and mo["stat_repaired"][:2] == [total, len(sp)]
+                chk.violation(KF_STAT if explained else "C07:history:cached-statistic-differs-from-offered",
+                              f"schema.statistic of object {i} reports {got[1]}/{got[0]}; {len(sp)}/{total} are selected",
+                              {**here, "object": i, "impl": got, "expected": [total, len(sp)]})
+
+
+# the shapes named in the property text, as fixed histories (run on every designed document)
+def designed_histories():
+    c = G.call
+    d = lambda p, call: {"op": "derive", "p": p, "call": call}
+    return [
+        # derive, derive again from the first, keep using the first (include side / exclude side)
+        [d(0, c(True, tag="x")), d(2, c(True, tag="y")), d(2, c(True, method="post"))],
+        [d(0, c(False, tag="x")), d(2, c(False, method=["POST", "DELETE"])), d(2, c(False, True))],
+        # siblings from one filtered parent; a repeated call on the sibling must be judged against the parent only
+        [d(0, c(True, path="/a")), d(2, c(True, path_regex="b$")), d(2, c(True, path_regex="b$")), d(3, c(False, method="get"))],
+        # lazy chains and resolution against filtered fixtures, the lazy objects being reused afterwards
+        [d(1, c(True, path_regex="^/a")), d(2, c(True, path_regex="b$")), {"op": "resolve", "l": 2, "f": 0},
+         d(0, c(False, method="DELETE")), {"op": "resolve", "l": 2, "f": 5}, d(2, c(False, tag="y")),
+         {"op": "resolve", "l": 2, "f": 5}],
+        [d(1, c(False, func="dep")), d(2, c(False, tag="x")), {"op": "resolve", "l": 3, "f": 0}, d(2, c(False, tag="y")),
+         {"op": "resolve", "l": 2, "f": 0}],
+        # clones / parametrize handles share the FilterSet object; deriving from either must not touch the other
+        [d(0, c(True, method="get")), {"op": "share", "p": 2, "how": "parametrize"}, d(3, c(True, method="post")),
+         {"op": "share", "p": 2, "how": "clone"}, d(2, c(True, method="delete")), d(5, c(False, path="/a"))],
+        # a refused second half of exclude(func, deprecated=True) after its first half was added to the clone
+        [d(0, c(False, func=0)), d(2, c(False, True, func=0)), d(2, c(False, func="dep")), d(2, c(False, True, func=1))],
+        [d(0, c(False, func="dep")), d(2, c(False, True, func=0)), d(2, c(False, tag="x"))],
+        # several command-line runs in one process: each builds its own FilterSet; then the Python API on top of one
+        [{"op": "adopt", "cli": {"include_tag": ["x"], "exclude_deprecated": False}},
+         {"op": "adopt", "cli": {"include_method": ["post"], "exclude_deprecated": True}},
+         d(2, c(True, path="/b")), {"op": "adopt", "cli": {"include_tag": ["x"], "exclude_deprecated": False}},
+         d(3, c(False, tag="y")), {"op": "adopt", "cli": {"exclude_path_regex": "b$", "exclude_deprecated": True}}],
+    ]
+
+
 # ---- command line ----------------------------------------------------------------------------------------------------
 
 CLI_VALUES = {"path": ["/a", "/b", "/c"], "method": ["GET", "get", "post", "DELETE"], "name": ["GET /a", "POST /b", "DELETE /a"],
@@ -485,6 +890,41 @@ GQL_ATOMS = [("name", "Query.getBooks"), ("name", ["Query.book", "Mutation.addBo
              ("name_regex", "Author"), ("name", "Mutation.nothing"), ("name_regex", "^add")]
 
 
+class GqlCase:
+    """The GraphQL schema in the shape `run_histories` needs (facts for the oracle, wire ops for the model)."""
+
+    gql = True
+    name = "graphql"
+
+    def __init__(self):
+        from types import SimpleNamespace
+
+        base = schemathesis.graphql.from_file(GQL_SDL)
+        names = [r.ok().label for r in base.get_all_operations()]
+        view = {"tags": None, "opid": None, "dep": False, "fns": []}
+        self.raw = GQL_SDL
+        self.ops = [{"m": "POST", "p": "", "label": n, "raw": view, "res": view, "links": [], "body": False, "pp": False}
+                    for n in names]
+        self.facts = [{"name": n, "method": "POST", "path": "", "tags": None, "operation_id": None, "deprecated": False,
+                       "preds": [], "links": []} for n in names]
+        self.world = SimpleNamespace(preds=[], strings=lambda: {"name": set(names)})
+
+    def load(self):
+        return schemathesis.graphql.from_file(GQL_SDL)
+
+    def replay_base(self):
+        return {"graphql": GQL_SDL}
+
+
+def gql_random_call(rng, inc):
+    kw = dict([rng.choice(GQL_ATOMS)])
+    if rng.random() < 0.05:
+        kw = {"name": "Query.book", "name_regex": "book"}
+    if rng.random() < 0.03:
+        kw = {}
+    return G.call(inc, False, **kw)
+
+
 def graphql_run(chk, reg):
     base = schemathesis.graphql.from_file(GQL_SDL)
     names = [r.ok().label for r in base.get_all_operations()]
@@ -574,10 +1014,10 @@ def run(chk):
             judge(chk, cases[k], mid, "exhaustive-2x1", reg, variants)
         n_ex += len(big) + 3 * len(mid)
     else:
-        sample = rng.sample(list(exhaustive_programs(2, 2)), 1200)
+        sample = rng.sample(list(exhaustive_programs(2, 2)), 900)
         judge(chk, cases["A"], sample, "sampled-2x2", reg, variants)
     # 3. random programs (multi-criterion filters, deprecated flag, error shapes) on designed and random documents
-    n_docs = chk.budget(25, 250)
+    n_docs = chk.budget(20, 250)
     per_doc = chk.budget(60, 150)
     for k, c in cases.items():
         judge(chk, c, [random_program(rng) for _ in range(chk.budget(300, 2500))], "random", reg, variants)
@@ -592,9 +1032,33 @@ def run(chk):
     singles = [[]] + [[atom_call(True, a)] for a in G.ATOMS[::3]] + [[atom_call(False, a)] for a in G.ATOMS[1::3]]
     lz = [{"calls": a, "lazy": b} for a in singles for b in singles]
     judge(chk, cases["A"], lz, "lazy-pairs", reg, variants, machine=False)
+    # 4b. derivation histories: every object observed after every step (parents after their children were derived,
+    #     siblings, clones / parametrize handles, lazy chains resolved against filtered fixtures, refused calls)
+    import time
+
+    t_hist = time.time()
+    n_hist = 0
+    for k, c in cases.items():
+        hs = designed_histories() + [random_history(rng) for _ in range(chk.budget(100, 600))]
+        run_histories(chk, c, hs, "history", reg, variants)
+        n_hist += len(hs)
+    for i in range(chk.budget(3, 25)):
+        c = Case(f"hrandom{i}", G.random_doc(rng, preds), preds)
+        hs = [random_history(rng) for _ in range(chk.budget(30, 40))]
+        run_histories(chk, c, hs, "history-random-doc", reg, variants)
+        n_hist += len(hs)
+    gq = GqlCase()
+    gql_designed = [[{**st, "call": G.call(st["call"]["inc"], False, **dict([GQL_ATOMS[j % len(GQL_ATOMS)]]))}
+                     if st["op"] == "derive" else st for j, st in enumerate(h)] for h in designed_histories()
+                    if not any(st["op"] == "adopt" for st in h)]
+    hs = gql_designed + [random_history(rng, gql_random_call, adopt=False) for _ in range(chk.budget(50, 300))]
+    run_histories(chk, gq, hs, "history-graphql", reg, variants)
+    n_hist += len(hs)
+    chk.notes.append(f"derivation histories: {n_hist} histories of 3-7 steps over 2 roots, every object observed after "
+                     f"every step, {time.time() - t_hist:.1f}s")
     # 5. command line
     for k, c in cases.items():
-        cli_run(chk, c, [random_cli(rng) for _ in range(chk.budget(400, 5000))], reg, variants)
+        cli_run(chk, c, [random_cli(rng) for _ in range(chk.budget(300, 5000))], reg, variants)
     # 6. GraphQL (name filters only, as documented)
     graphql_run(chk, reg)
     if chk.thorough:
@@ -627,6 +1091,17 @@ def run(chk):
         "lazy_repaired, lazy_repaired_respects_fixture_excludes: pooled filter sets give the full statement",
         "graphql_agrees: GraphQL iteration and statistic agree with the selection rule",
         "exclude_only_shrinks: an added exclusion never adds an operation",
+        "history_refines_values, history_refusals_agree: with FilterSet._includes/_excludes as mutable set objects in a "
+        "heap (FilterSet.__init__'s `arg or set()`, clone, merge, in-place _add_filter), after ANY history of "
+        "include/exclude on any schema or lazy schema, clone()/parametrize(), get_schema and command-line runs, every "
+        "object's sets hold exactly its own immutable filter set, and every call is refused exactly when its parent's "
+        "own filters prescribe it",
+        "derivation_never_changes_existing, later_derivations_do_not_change_offered: no later step (deriving from it, "
+        "from a sibling, refused or half-refused calls, sharing, resolving) changes what an existing schema offers, "
+        "reports or wires",
+        "history_objects_offer_selected, history_values_append_only: every object of every history is in normal form and "
+        "offers exactly the operations the selection rule selects for its own filters",
+        "cli_into_in_place: FilterArguments.into fills a FilterSet of its own in place and touches no existing object",
     ]
     chk.partial += [
         "statistic_operations_partial (+ statistic_operations_full_false): as found, the operation counts are right only "
@@ -635,12 +1110,20 @@ def run(chk):
         "has no filters of its own (F29)",
         "link theorems assume distinct operationIds and resolvable link targets; path-item / operation level schema "
         "errors (Err results) are outside the model",
-        "_ctx_cache of _should_skip is shared mutable state: concurrent calls from several threads are not modelled",
+        "_ctx_cache of _should_skip is shared mutable state: concurrent calls from several threads are not modelled "
+        "(interleaved consumption of several schemas' get_all_operations generators in one thread is exercised)",
+        "heap model: a FilterSet object is identified with its pair of set objects (its two slots are never rebound); "
+        "direct in-place use of schema.filter_set.include(...) by user code is outside the history language",
     ]
     chk.sampled_only += [
-        "GraphQL: only name filters (as documented) are exercised against the real schema",
+        "GraphQL: only name filters (as documented) are exercised against the real schema (single filter sets and "
+        "derivation histories)",
         "requests actually received by the API under test per engine phase (thorough tier: loopback server, "
-        "max_examples=4) and a real pytest session for lazy fixtures (thorough tier)",
+        "max_examples=4; also for schemas in the middle of a derivation history and through the command line's "
+        "into_event_stream with its reported selected/total) and a real pytest session for lazy fixtures and schemas "
+        "from which further objects were derived (thorough tier)",
+        "derivation histories are sampled (3-7 steps, 2 roots) plus nine designed shapes per document; the theorem "
+        "covers all lengths",
         "regular-expression and expression/user-function matchers are opaque in the model; their truth tables come from "
         "`re` and the harness' own JSON-pointer walker",
     ]
@@ -672,7 +1155,7 @@ class RecordingApp:
         return [body]
 
 
-def engine_requests(chk, case: Case, programs, preds):
+def engine_requests(chk, case: Case, programs, preds, histories=None):
     """Run the real engine, one phase at a time, against a loopback server; judge which operations got requests."""
     import threading
     from wsgiref.simple_server import WSGIRequestHandler, make_server
@@ -696,13 +1179,28 @@ def engine_requests(chk, case: Case, programs, preds):
         templates = {}
         for f in case.facts:
             templates.setdefault(f["path"], (_template_regex(f["path"]), set()))[1].add(f["method"])
+        all_phases = (PhaseName.PROBING, PhaseName.EXAMPLES, PhaseName.COVERAGE, PhaseName.FUZZING,
+                      PhaseName.STATEFUL_TESTING)
+        targets = []
         for p in programs:
             schema, st = apply_calls(base, p["calls"], preds)
             if schema is None:
                 continue
-            expected = oracle_offered(case, p["calls"])
-            for phase in (PhaseName.PROBING, PhaseName.EXAMPLES, PhaseName.COVERAGE, PhaseName.FUZZING,
-                          PhaseName.STATEFUL_TESTING):
+            targets.append((schema, oracle_offered(case, p["calls"]), p, all_phases))
+        # schemas in the middle of a derivation history: the engine runs on a parent AFTER children were derived from it
+        for steps in histories or ():
+            h, kept, records, _ = realise_history(case, steps, preds, root=base)
+            parents = sorted({st["p"] for st in kept if st["op"] == "derive"} - {0, 1})
+            for i in parents:
+                o = h.objs[i] if i < len(h.objs) else None
+                if o is None or o["kind"] != "schema":
+                    continue
+                inc, exc = o["pool"]
+                expected = [f["name"] for f in case.facts if G.oracle_selected(inc, exc, f)]
+                targets.append((o["obj"], expected, {"history": kept, "object": i},
+                                (PhaseName.FUZZING, PhaseName.STATEFUL_TESTING)))
+        for schema, expected, p, phases in targets:
+            for phase in phases:
                 app.log.clear()
                 cfg = EngineConfig(execution=ExecutionConfig(
                     phases=[phase], seed=chk.seed,
@@ -717,19 +1215,106 @@ def engine_requests(chk, case: Case, programs, preds):
                     for tpl, (rx, methods) in templates.items():
                         if rx.match(path) and method.lower() in methods:
                             hit.add(f"{method.upper()} {tpl}")
-                replay = {"doc": case.raw, "doc_name": case.name, "program": p, "phase": phase.value}
-                chk.case("engine", key={"doc": case.name, "program": p["calls"], "phase": phase.value},
+                replay = {"doc": case.raw, "doc_name": case.name, **({"program": p} if "calls" in p else p),
+                          "phase": phase.value}
+                chk.case("engine" if "calls" in p else "engine-history",
+                         key={"doc": case.name, "program": p.get("calls", p), "phase": phase.value},
                          nontrivial=bool(hit), sample={"phase": phase.value, "hit": sorted(hit), "expected": expected})
                 chk.feature(f"engine:{phase.value}:operations-hit={len(hit)}")
                 stray = sorted(hit - set(expected))
+                where = "engine" if "calls" in p else "engine-after-later-derivations"
                 if stray:
-                    chk.violation(f"C07:engine:request-sent-to-unselected-operation:{phase.value}",
+                    chk.violation(f"C07:{where}:request-sent-to-unselected-operation:{phase.value}",
                                   f"phase {phase.value} sent requests to {stray}, which the filters do not select",
                                   {**replay, "impl": sorted(hit), "expected": expected})
                 if phase == PhaseName.FUZZING and set(expected) - hit:
-                    chk.violation("C07:engine:selected-operation-not-exercised:Fuzzing",
+                    chk.violation(f"C07:{where}:selected-operation-not-exercised:Fuzzing",
                                   f"selected operations {sorted(set(expected) - hit)} received no request in the fuzzing phase",
                                   {**replay, "impl": sorted(hit), "expected": expected})
+    finally:
+        srv.shutdown()
+        th.join(timeout=10)
+        srv.server_close()
+
+
+def cli_event_stream(chk, case: Case, argsets):
+    """The command-line path end to end: FilterArguments.into -> RunConfig -> into_event_stream (which assigns the
+    filter set to the loaded schema, reports its statistic and runs the engine) against a recording loopback server."""
+    import threading
+    from wsgiref.simple_server import WSGIRequestHandler, make_server
+
+    import click
+    import hypothesis
+    from schemathesis.cli.commands.run import filters as cli_filters
+    from schemathesis.cli.commands.run.events import LoadingFinished
+    from schemathesis.cli.commands.run.executor import RunConfig, into_event_stream
+    from schemathesis.core.output import OutputConfig
+    from schemathesis.engine.config import EngineConfig, ExecutionConfig
+    from schemathesis.engine.phases import PhaseName
+
+    class Quiet(WSGIRequestHandler):
+        def log_message(self, *a):
+            pass
+
+    exprs = {1: "/x-internal == true", 2: '/parameters/0/name == "id"', 3: "/deprecated != true"}
+    app = RecordingApp(case.raw)
+    srv = make_server("127.0.0.1", 0, app, handler_class=Quiet)
+    th = threading.Thread(target=srv.serve_forever, daemon=True)
+    th.start()
+    templates = {}
+    for f in case.facts:
+        templates.setdefault(f["path"], (_template_regex(f["path"]), set()))[1].add(f["method"])
+    try:
+        for a in argsets:
+            kwargs = {}
+            for mode in ("include", "exclude"):
+                for attr in G.ATTRS:
+                    kwargs[f"{mode}_{attr}"] = tuple(a.get(f"{mode}_{attr}", ()))
+                    kwargs[f"{mode}_{attr}_regex"] = a.get(f"{mode}_{attr}_regex")
+                kwargs[f"{mode}_by"] = exprs.get(a.get(f"{mode}_by"))
+            kwargs["exclude_deprecated"] = a["exclude_deprecated"]
+            try:
+                fs = cli_filters.FilterArguments(**kwargs).into()
+            except (click.UsageError, IncorrectUsage):
+                continue
+            inc, exc = cli_conjs(a)
+            expected = [f["name"] for f in case.facts if G.oracle_selected(inc, exc, f)]
+            app.log.clear()
+            cfg = RunConfig(
+                location=f"http://127.0.0.1:{srv.server_port}/openapi.json", base_url=None, filter_set=fs,
+                engine=EngineConfig(execution=ExecutionConfig(
+                    phases=[PhaseName.FUZZING, PhaseName.STATEFUL_TESTING], seed=chk.seed,
+                    hypothesis_settings=hypothesis.settings(max_examples=4, deadline=None, database=None,
+                                                            derandomize=True, stateful_step_count=4))),
+                wait_for_schema=None, rate_limit=None, output=OutputConfig(), report=None, args=[], params={})
+            reported = None
+            for ev in into_event_stream(cfg):
+                if isinstance(ev, LoadingFinished):
+                    st = ev.statistic
+                    reported = [st.operations.total, st.operations.selected]
+                elif type(ev).__name__ == "FatalError":
+                    raise InfraError(f"command-line event stream failed on {case.name} {a}: {ev.exception!r}")
+            hit = set()
+            for method, path in list(app.log):
+                for tpl, (rx, methods) in templates.items():
+                    if rx.match(path) and method.lower() in methods:
+                        hit.add(f"{method.upper()} {tpl}")
+            replay = {"doc": case.raw, "doc_name": case.name, "cli": a, "phase": "event-stream"}
+            chk.case("cli-event-stream", key={"doc": case.name, "cli": a}, nontrivial=0 < len(expected) < len(case.facts),
+                     sample={"cli": a, "reported": reported, "hit": sorted(hit), "expected": expected})
+            if reported != [len(case.facts), len(expected)]:
+                chk.violation("C07:cli:reported-selected-total-differs-from-selection",
+                              f"with options {a} the run reports {reported}; {len(expected)}/{len(case.facts)} are selected",
+                              {**replay, "impl": reported, "expected": [len(case.facts), len(expected)]})
+            stray = sorted(hit - set(expected))
+            if stray:
+                chk.violation("C07:cli:request-sent-to-unselected-operation",
+                              f"with options {a} requests went to {stray}, which the options do not select",
+                              {**replay, "impl": sorted(hit), "expected": expected})
+            if set(expected) - hit:
+                chk.violation("C07:cli:selected-operation-not-exercised",
+                              f"with options {a} the selected {sorted(set(expected) - hit)} received no request",
+                              {**replay, "impl": sorted(hit), "expected": expected})
     finally:
         srv.shutdown()
         th.join(timeout=10)
@@ -758,6 +1343,11 @@ def api():
 
 lazy = schemathesis.pytest.from_fixture("api").include(path_regex="^/a")
 direct = _schema().include(path_regex="^/a")
+# derived later and not used by any test: must not change what `lazy` / `direct` select
+lazy_wider = lazy.include(path_regex="b$")
+direct_wider = direct.include(path_regex="b$")
+lazy_narrower = lazy.exclude(method="get")
+direct_narrower = direct.exclude(method="get")
 
 
 @lazy.parametrize()
@@ -817,7 +1407,9 @@ def end_to_end(chk, cases, preds, variants):
             p = random_program(rng)
             if observe(cases[k].base, p["calls"], preds, machine=False)["build"] == "ok":
                 programs.append(p)
-        engine_requests(chk, cases[k], programs, preds)
+        hist = designed_histories()[:3] + [random_history(rng, adopt=False) for _ in range(5)]
+        engine_requests(chk, cases[k], programs, preds, histories=hist)
+        cli_event_stream(chk, cases[k], [random_cli(rng) for _ in range(10)])
     pytest_session(chk, cases["A"])
 
 
@@ -830,19 +1422,33 @@ def replay(chk, data):
         print("recorded model:", json.dumps(r.get("model")))
         print("recorded impl :", json.dumps(r.get("impl")))
         r = r["input"]
-    if "graphql" in r:
+    if "graphql" in r and "history" not in r:
         base = schemathesis.graphql.from_file(r["graphql"])
         schema, st = apply_calls(base, r["program"]["calls"], [])
         print("program:", json.dumps(r["program"]))
         print("impl now:", st, labels_of(schema) if schema is not None else None)
         return 0
-    if "doc" not in r:
+    if "doc" not in r and "history" not in r:
         print(json.dumps(r, indent=1, default=str)[:4000])
         return 0
-    case = Case(r.get("doc_name", "replay"), r["doc"], preds)
+    case = GqlCase() if "graphql" in r else Case(r.get("doc_name", "replay"), r["doc"], preds)
     variants = detect_variants(chk, Case("A", G.designed_docs()["A"], preds))
     print("variants of this tree:", variants)
-    if "program" in r:
+    if "history" in r:
+        h, kept, records, final = realise_history(case, r["history"], preds, real_indices=True)
+        wire = [wire_step(st, reg) for st in kept]
+        m = chk.driver().one("history", {"rx": reg.tables(case.world.strings()), "ops": case.ops, "roots": HIST_ROOTS,
+                                         "variant": variants["lazy"], "gql": case.gql, "histories": [wire]})[0]
+        for t, (st, rec, mm) in enumerate(zip(kept, records, m)):
+            print(f"step {t}: {json.dumps(st)}")
+            print(f"   impl : refusal={rec['err']} offered per object={[o['all'] for o in rec['objs']]}")
+            print(f"   model: refusal={mm['err']} offered per object={[o['all'] for o in mm['objs']]}")
+            print(f"   spec : refusal={mm['spec_err']} selected per object={mm['spec']}")
+        print("cached statistic at the end:", final["cached"], "lock-step iteration:", final["interleaved"])
+        print("recorded: step", r.get("step"), "object", r.get("object"), "impl", r.get("impl"), "expected", r.get("expected"))
+        if "phase" in r:
+            print("recorded engine phase:", r["phase"], "on object", r.get("object"))
+    elif "program" in r:
         p = r["program"]
         print("program:", json.dumps(p))
         impl = observe(case.base, p["calls"], preds, p.get("lazy"))
